@@ -70,3 +70,10 @@ Definition case := (flags * ntree * nval * oshape)%type.
 Definition ok (ct : ctab) (c : case) : bool :=
   match c with (F, o, n, observed) => oshape_eqb (shape ct (assign_nest ct F o n)) observed end.
 Definition mismatches (ct : ctab) (l : list case) : list nat := mism (ok ct) l.
+
+(* never-compared snapshots (Model/Undecided.v): is update approved, the hand-written expression, what is read back afterwards *)
+From V Require Import Model.Undecided.
+Definition ucase := (bool * ntree * oshape)%type.
+Definition okU (ct : ctab) (c : ucase) : bool :=
+  match c with (upd, t, observed) => oshape_eqb (shape ct (undecided upd t)) observed end.
+Definition mismatchesU (ct : ctab) (l : list ucase) : list nat := mism (okU ct) l.
